@@ -97,6 +97,32 @@ pub fn world_weighted() -> World {
     World { specs, relations, privacy_unit, synthetic }
 }
 
+/// a third schema: foreign keys that refer to natural keys with their own names (a cart has a surrogate id and a
+/// cart_no its lines refer to), all key values in the same small range
+pub fn world_natural_keys() -> World {
+    let c = |name, ty| ColSpec { name, ty, unique: false };
+    let u = |name, ty| ColSpec { name, ty, unique: true };
+    let specs = vec![
+        TableSpec { name: "people", path: "people_tab", protected: true, size: 30, cols: vec![u("pid", ColTy::Int(0, 20)), c("age", ColTy::Int(18, 90))] },
+        TableSpec { name: "carts", path: "carts_tab", protected: true, size: 30, cols: vec![u("id", ColTy::Int(0, 20)), u("cart_no", ColTy::Int(0, 20)), c("pid", ColTy::Int(0, 20))] },
+        TableSpec { name: "lines", path: "lines_tab", protected: true, size: 60, cols: vec![c("cart_ref", ColTy::Int(0, 20)), c("price", ColTy::Float(0.0, 100.0))] },
+    ];
+    let relations: Hierarchy<Arc<Relation>> = specs.iter().flat_map(|t| {
+        let schema: Schema = t.cols.iter().map(|c| {
+            if c.unique { (c.name, col_type(&c.ty), Some(Constraint::Unique)) } else { (c.name, col_type(&c.ty), None) }
+        }).collect();
+        let rel: Arc<Relation> = Arc::new(Relation::table().name(t.name).path([t.path]).schema(schema).size(t.size).build());
+        vec![(vec![t.name.to_string()], rel.clone()), (vec![t.path.to_string()], rel)]
+    }).collect();
+    let privacy_unit = PrivacyUnit::from(vec![
+        ("people", vec![], "pid"),
+        ("carts", vec![("pid", "people", "pid")], "pid"),
+        ("lines", vec![("cart_ref", "carts", "cart_no"), ("pid", "people", "pid")], "pid"),
+    ]);
+    let synthetic = SyntheticData::new(Hierarchy::from([(vec!["people_tab"], Identifier::from("sd_people"))]));
+    World { specs, relations, privacy_unit, synthetic }
+}
+
 // ---------- query generation ----------
 
 #[derive(Clone, Debug)]
